@@ -295,6 +295,9 @@ class AbstractJob:                                      # pylint: disable=R0902
             style['color'] = 'red'
             style['penwidth'] = 2
         else:
+            # be explicit: a cluster inherits the graph attributes
+            # of the cluster it is nested in
+            style['color'] = 'black'
             style['penwidth'] = 0.5
         return style
 
